@@ -44,6 +44,55 @@ def handle : List String → Option String
           let r := Src.compute_vertex (x, y) dh tol
           showList showRat [r.1.1, r.1.2, r.2.1.1, r.2.1.2, r.2.2.1.1, r.2.2.1.2, r.2.2.2.1, r.2.2.2.2]
       | _, _, _, _ => "bad-op")
+  -- C11 (exact layer: rationals; 2-D arrays as `;`-separated rows)
+  | ["src_gds_data", rows, sc] => some (match parseList2? parseRat? rows, parseRat? sc with
+      | some rows, some sc => ";".intercalate ((Src.gds_data rows sc).map (showList showRat)) | _, _ => "bad-op")
+  | ["src_gds_sum", rows] => some (match parseList2? parseRat? rows with
+      | some rows => showRat (Src.gds_sum rows) | none => "bad-op")
+  | ["src_gds_scale", v] => some (match parseRat? v with | some v => showRat (Src.gds_scale v) | none => "bad-op")
+  | ["src_mgds_spatial_counts", rows] => some (match parseList2? parseRat? rows with
+      | some rows => showList showRat (Src.mgds_spatial_counts rows) | none => "bad-op")
+  | ["src_mgds_magnitude_counts", rows] => some (match parseList2? parseRat? rows with
+      | some rows => showList showRat (Src.mgds_magnitude_counts rows) | none => "bad-op")
+  | ["src_get_magnitude_index", mags, edges] => some (match parseList? parseRat? mags, parseList? parseRat? edges with
+      | some mags, some edges => showExcept (showList showInt) (Src.get_magnitude_index mags edges) | _, _ => "bad-op")
+  | ["src_get_rates", n1, n2, n3, idx, idm, rows, other] => some (
+      match n1.toNat?, n2.toNat?, n3.toNat?, parseList? parseInt? idx, parseList? parseInt? idm, parseList2? parseRat? rows,
+        parseList2? parseRat? other with
+      | some n1, some n2, some n3, some idx, some idm, some rows, some other =>
+          let z := fun (n : Nat) => List.replicate n (0 : Rat)
+          (if other.isEmpty then showExcept (showList showRat) (Src.get_rates (z n1) (z n2) (z n3) idx idm rows)
+           else showExcept (showList showRat) (Src.get_rates_data (z n1) (z n2) (z n3) other idx idm rows))
+      | _, _, _, _, _, _, _ => "bad-op")
+  | ["src_target_event_rates", sc, days, n, idx, idm, rows] => some (
+      match parseInt? days, n.toNat?, parseList? parseInt? idx, parseList? parseInt? idm, parseList2? parseRat? rows with
+      | some days, some n, some idx, some idm, some rows =>
+          let z := List.replicate n (0 : Rat)
+          showExcept (fun (r : List Rat × Rat) => s!"{showList showRat r.1};{showRat r.2}")
+            (Src.target_event_rates (sc == "1") rows days z z z idx idm)
+      | _, _, _, _, _ => "bad-op")
+  | ["src_load_ascii", sw, rows] => some (match parseList2? parseRat? rows with
+      | some rows =>
+          let r := Src.load_ascii (sw == "1") rows
+          let pt := fun (p : Rat × Rat) => s!"{showRat p.1}:{showRat p.2}"
+          let bb := r.1.map (fun b => s!"{pt b.1}|{pt b.2.1}|{pt b.2.2.1}|{pt b.2.2.2}")
+          s!"{showList id bb};{showList showRat r.2.1};{showList showRat r.2.2.1};{showList showRat r.2.2.2}"
+      | none => "bad-op")
+  | ["src_scale_to_test_date", t, e, st] => some (match parseInt? t, parseInt? e, parseInt? st with
+      | some t, some e, some st =>
+          showOpt showRat (Src.scale_to_test_date { us := t, tz := .naive } { us := e, tz := .naive } { us := st, tz := .naive })
+      | _, _, _ => "bad-op")
+  | ["src_zmap_record", eid, row] => some (match parseInt? eid, parseList? parseRat? row with
+      | some eid, some row => showExcept (fun (r : Int × Int × Rat × Rat × Rat × Rat) =>
+          s!"{r.1}:{r.2.1}:{showRat r.2.2.1}:{showRat r.2.2.2.1}:{showRat r.2.2.2.2.1}:{showRat r.2.2.2.2.2}")
+          (Src.zmap_record eid row)
+      | _, _ => "bad-op")
+  | ["src_horus_record", ints, rats] => some (match parseList? parseInt? ints, parseList? parseRat? rats with
+      | some [y, mo, d, hh, mi], some [sec, lat, lon, dep, mw] =>
+          showExcept (fun (r : Py.Datetime × Int × Rat × Rat × Rat × Rat) =>
+            s!"{r.1.us}:{r.2.1}:{showRat r.2.2.1}:{showRat r.2.2.2.1}:{showRat r.2.2.2.2.1}:{showRat r.2.2.2.2.2}")
+            (Src.horus_record 0 y mo d hh mi sec lat lon dep mw)
+      | _, _ => "bad-op")
   | ["src_discretize", rc, bins, ps] => some (match parseList? parseRat? bins, parseList? parseRat? ps with
       | some bins, some ps => showExcept (showList showRat) (Src.discretize ps bins (rc == "1"))
       | _, _ => "bad-op")
@@ -57,6 +106,29 @@ def handle : List String → Option String
       | _, _ => "bad-op")
   | ["src_epoch_time_to_utc_datetime", xs] => some (match parseList? parseInt? xs with
       | some xs => showList (fun ms => showInt (Src.epoch_time_to_utc_datetime ms).us) xs | none => "bad-op")
+  -- strings travel as comma-separated character codes (`-` = empty)
+  | ["src_parse_string_format", cs] => some (match parseList? String.toNat? cs with
+      | some cs => String.ofList (Src.parse_string_format (cs.map Char.ofNat)) |>.replace " " "_" | none => "bad-op")
+  | ["src_strptime_to_utc_datetime", cs, fs] => some (match parseList? String.toNat? cs, parseList? String.toNat? fs with
+      | some cs, some fs => showExcept (fun (d : Py.Datetime) => showInt d.us)
+          (Src.strptime_to_utc_datetime (cs.map Char.ofNat) (fs.map Char.ofNat)) | _, _ => "bad-op")
+  | ["src_strptime_to_utc_epoch", cs, fs] => some (match parseList? String.toNat? cs, parseList? String.toNat? fs with
+      | some cs, some fs => showExcept showInt (Src.strptime_to_utc_epoch (cs.map Char.ofNat) (fs.map Char.ofNat))
+      | _, _ => "bad-op")
+  | ["src_reader_parse_datetime", cs] => some (match parseList? String.toNat? cs with
+      | some cs => showExcept showInt (Src.reader_parse_datetime (cs.map Char.ofNat)) | none => "bad-op")
+  | ["src_millis_to_days", xs] => some (match parseList? parseInt? xs with
+      | some xs => showList (fun x => showRat (Src.millis_to_days x)) xs | none => "bad-op")
+  | ["src_days_to_millis_f", xs] => some (match parseList? parseRat? xs with
+      | some xs => showList (fun x => showRat (Src.days_to_millis_f x)) xs | none => "bad-op")
+  | ["src_days_to_millis_i", xs] => some (match parseList? parseInt? xs with
+      | some xs => showList (fun x => showInt (Src.days_to_millis_i x)) xs | none => "bad-op")
+  | ["src_timedelta_from_years", xs] => some (match parseList? parseRat? xs with
+      | some xs => showList (fun x => showExcept showInt (Src.timedelta_from_years x)) xs | none => "bad-op")
+  | ["src_decimal_year_to_utc_datetime", xs] => some (match parseList? parseRat? xs with
+      | some xs => showList (fun x => showInt (Src.decimal_year_to_utc_datetime x).us) xs | none => "bad-op")
+  | ["src_decimal_year_to_utc_epoch", xs] => some (match parseList? parseRat? xs with
+      | some xs => showList (fun x => showExcept showInt (Src.decimal_year_to_utc_epoch x)) xs | none => "bad-op")
   | ["src_decimal_year", xs] => some (match parseList? parseInt? xs with
       | some xs => showList (fun us => showRat (Src.decimal_year { us := us, tz := .utc })) xs | none => "bad-op")
   -- real layer at Float; floats travel as IEEE bit patterns; the scipy functions are the synthetic linear functions
